@@ -1,7 +1,7 @@
 ---------------------------- MODULE Trace_Features ----------------------------
 (* "Build" {set, ok}           cargo check of configuration set
    "Begin" {n}                 a corpus of n distinct calls (ids 1..n), shared by all configurations
-   "Call"  {set, op, id, res}  configuration set answered call id (operation op) with res                      *)
+   "Call"  {set, op, uses, id, res}  configuration set answered call id (operation op, input uses the features in uses) with res                      *)
 EXTENDS Features, Json, IOUtils
 Rec == ndJsonDeserialize(IOEnv.TRACE)
 VARIABLE l
@@ -9,12 +9,12 @@ SetOf(s) == {s[i] : i \in 1..Len(s)}
 Step(e) ==
   \/ e.ev = "Build" /\ UNCHANGED seen
   \/ e.ev = "Begin" /\ seen' = [i \in 1..e.n |-> NoRes]
-  \/ e.ev = "Call" /\ e.op \in Provided(SetOf(e.set)) /\ Return(e.id, e.res)
+  \/ e.ev = "Call" /\ e.op \in Provided(SetOf(e.set)) /\ SetOf(e.uses) \subseteq SetOf(e.set) /\ Return(e.id, e.res)
 Init == l = 1 /\ ApiInit
 Matched == /\ l <= Len(Rec) /\ Step(Rec[l]) /\ l' = l + 1
            /\ (IF Rec[l].ev = "Build" /\ MustBuild(SetOf(Rec[l].set)) /\ ~Rec[l].ok THEN PrintT("V " \o ToJson([l |-> l, v |-> "bad:does-not-build"])) ELSE TRUE)
 Mismatch == /\ l <= Len(Rec) /\ Rec[l].ev = "Call" /\ ~ENABLED Step(Rec[l])
-            /\ PrintT("V " \o ToJson([l |-> l, v |-> IF Rec[l].op \in Provided(SetOf(Rec[l].set)) THEN "bad:configurations-disagree" ELSE "unrelated"]))
+            /\ PrintT("V " \o ToJson([l |-> l, v |-> IF Rec[l].op \in Provided(SetOf(Rec[l].set)) /\ SetOf(Rec[l].uses) \subseteq SetOf(Rec[l].set) THEN "bad:configurations-disagree" ELSE "unrelated"]))
             /\ l' = l + 1 /\ UNCHANGED seen
 Next == Matched \/ Mismatch
 Spec == Init /\ [][Next]_<<l, seen>>
